@@ -289,6 +289,51 @@ func streamReg(o opts) {
 		}
 		m.count("concurrent_rounds")
 	}
+	// concurrent registrations of one fresh name: Register never replaces, so exactly one caller may succeed
+	{
+		rounds := 150 * o.n
+		if rounds > 30000 {
+			rounds = 30000
+		}
+		watch("registry register race")
+		bad := 0
+		for i := 0; i < rounds && bad < 3; i++ {
+			mg := kioshun.NewManager()
+			var okN atomic.Int64
+			var ready, wg sync.WaitGroup
+			start := make(chan struct{})
+			for g := 0; g < 6; g++ {
+				wg.Add(1)
+				ready.Add(1)
+				g := g
+				go func() {
+					defer wg.Done()
+					cfg := good
+					cfg.MaxSize = int64(100 + g)
+					ready.Done()
+					<-start
+					var err error
+					if g%2 == 0 {
+						err = mg.Register("r", cfg)
+					} else {
+						err = kioshun.RegisterCache[string, int](mg, "r", cfg)
+					}
+					if err == nil {
+						okN.Add(1)
+					}
+				}()
+			}
+			ready.Wait()
+			close(start)
+			wg.Wait()
+			if n := okN.Load(); n != 1 {
+				bad++
+				m.violate("C17", fmt.Sprintf("register race %d: 6 concurrent Register/RegisterCache calls for one fresh name, %d reported success (a registration was silently replaced)", i, n), fmt.Sprint(i))
+			}
+		}
+		unwatch()
+		m.countN("register_race_rounds", int64(rounds))
+	}
 	// CloseAll / Remove racing re-creation: every instance ever handed out must end up closed or still registered
 	for round := 0; round < o.n; round++ {
 		mg := kioshun.NewManager()
@@ -373,7 +418,7 @@ func streamReg(o opts) {
 func streamCb(o opts) {
 	r := newRand(o.seed, "cb")
 	m := newMeta("cb", o.seed)
-	m.Rule = "SetWithCallback under a virtual cache clock (real timers only trigger the re-validation): for each scenario a callback is registered with TTL T, then one of {nothing, Delete, Clear, re-Set with later/earlier/no expiry, Delete+re-Set shorter, Close, failing write, non-expiring write} happens at virtual time < T, the clock is moved before/after the deadline and the real timer is awaited; callbacks re-enter the cache (Set/Get/Delete of their own key); non-trivial = scenario whose callback is expected to fire and does; distinct by scenario kind and policy"
+	m.Rule = "SetWithCallback under a virtual cache clock (real timers only trigger the re-validation): for each scenario a callback is registered with TTL T, then one of {nothing, Delete, Clear, re-Set with later/earlier/no expiry, Delete+re-Set shorter, Delete+re-Set with the same TTL 1 us later, rewrite 2 us later, Close, failing write, non-expiring write} happens at virtual time < T, the clock is moved before/after the deadline and the real timer is awaited; callbacks re-enter the cache (Set/Get/Delete of their own key); non-trivial = scenario whose callback is expected to fire and does; distinct by scenario kind and policy"
 	must(nil)
 	fired := func(ch chan [2]int, wait time.Duration) [][2]int {
 		var out [][2]int
@@ -389,7 +434,7 @@ func streamCb(o opts) {
 	}
 	for round := 0; round < o.n; round++ {
 		pol := pick(r, []kioshun.EvictionPolicy{kioshun.LRU, kioshun.LFU, kioshun.FIFO, kioshun.SieveTinyLFU})
-		kind := round % 11
+		kind := round % 14
 		ctx := fmt.Sprintf("callback scenario %d policy %d", kind, pol)
 		kioshun.VerifSetClock(true, 1000)
 		c, err := kioshun.New[int, int](kioshun.Config{MaxSize: 8, ShardCount: 1, EvictionPolicy: pol})
@@ -448,6 +493,22 @@ func streamCb(o opts) {
 			c.SetWithCallback(2, 20, ttl, cb)
 			kioshun.VerifAdvance(int64(ttl) + 1)
 			expect = true
+		case 11: // deleted and re-set with the SAME ttl one microsecond later: another deadline, must not fire
+			c.SetWithCallback(1, 10, ttl, cb)
+			kioshun.VerifAdvance(1000)
+			c.Delete(1)
+			c.Set(1, 11, ttl)
+			kioshun.VerifAdvance(int64(ttl) + 2000)
+		case 12: // rewritten in place with an expiry two microseconds later
+			c.SetWithCallback(1, 10, ttl, cb)
+			c.Set(1, 11, ttl+2*time.Microsecond)
+			kioshun.VerifAdvance(int64(ttl) + 5000)
+		case 13: // the stored deadline is exactly now+ttl (no rounding): GetWithTTL reports ttl, and the callback is not early by a tick
+			c.SetWithCallback(1, 10, ttl, cb)
+			if _, rem, ok := c.GetWithTTL(1); !ok || rem != ttl {
+				m.violate("C20", fmt.Sprintf("%s: SetWithCallback(ttl=%v) at a frozen clock stores remaining %v", ctx, ttl, rem), ctx)
+			}
+			kioshun.VerifAdvance(int64(ttl) - 1)
 		case 10: // failing write (closed cache) schedules nothing
 			c.Close()
 			if e := c.SetWithCallback(1, 10, ttl, cb); e == nil {
